@@ -30,6 +30,8 @@ pub struct Report {
     pub notes: BTreeMap<String, J>,
     pub max_violations: usize,
     pub suppressed_violations: u64,
+    /// the format this worker process did its very first work in ("none": straight into the workload)
+    pub process_first_format: &'static str,
 }
 
 impl Report {
@@ -49,6 +51,7 @@ impl Report {
             notes: BTreeMap::new(),
             max_violations: 40,
             suppressed_violations: 0,
+            process_first_format: "none",
         }
     }
     pub fn eval(&mut self) {
@@ -100,6 +103,7 @@ impl Report {
             return;
         }
         self.violation_sigs.insert(sig.clone());
+        let detail = detail.set("process_first_format", self.process_first_format);
         self.violations.push(Violation { sig, what, detail });
     }
     pub fn note(&mut self, k: &str, v: impl Into<J>) {
